@@ -114,8 +114,14 @@ impl<C: Config, Q: Query> Snapshot<C, Q> {
 
         let timestamp = caller_information.timestamp();
         let query = query.clone();
+        // the block below may outlive the caller (it is spawned to completion
+        // when dropped), so it needs its own handle on the computation phase:
+        // no input session may start while it is still publishing.
+        let active_computation_guard =
+            caller_information.clone_active_computation_guard();
 
         async move {
+            let _active_computation_guard = active_computation_guard;
             crate::verif_pause!("x.g.start", Some(self.query_id()));
             let old_kind = self.query_kind().await;
             let existing_forward_edges = self.forward_edge_order().await;
